@@ -111,6 +111,18 @@ CHECKS = {
         "by refusing everything).",
    note="trusted: vmod observer built from /verif/vmod against the working tree; a typed null (x:vmod) is not an object; upper/mixed-case spellings are not module names at all",
    design="4/C16"),
+ "C15": dict(
+   technique="state-machine model of API handles vs a pure-C executor, one process per call sequence under ASan+UBSan with LeakSanitizer asked after every failing call and at exit",
+   text="Generated sequences of 20-200 C API calls (contexts, clones, purge, symbols, values of every type, assign_*, every typed accessor on every value, "
+        "store/load, expressions, executables, execute/execute2, drop_returned, break/reset_stop, error record) respecting the documented preconditions, "
+        "with failing texts interleaved (hand-written and token-mutated repository texts, runtime errors of every kind, a failing handler). A python "
+        "model predicts each reply: accessors succeed exactly on the matching type with NULL data for nulls, stored values are what scripts see "
+        "(typeof, equality) and script values are what the host loads (deep dump through the API only), failed parse/run return NULL/false with "
+        "errno/strerror set, stop condition semantics, clone/execute2 behaviour, reads never consume variables; library-owned pointers are re-read "
+        "after interleaved non-invalidating calls; LeakSanitizer is invoked after each rejected text (leak attributed to that text) and at exit.",
+   note="trusted: gcc LeakSanitizer; expressions are terminated by a newline as tests/test_c_api.c does (bloc_parse_expression needs a terminator); errno 0 accepted for "
+        "the end-of-input parse error; after store_variable the caller's value is only freed",
+   design="4/C15"),
  "C17": dict(
    technique="offline checker over the observer modules' event log (create/destroy/method, phase-marked per statement) against a reference-graph model + liveness probes + ASan on a real-free pass",
    text="Generated programs create, copy, overwrite and drop object references of two observer modules through variables, tables (tab(n, ctor), put, "
